@@ -199,6 +199,18 @@ def static_cast_inputs(
         if converter_._is_castable(x.name) and y is not None:  # pylint: disable=protected-access
             # Polymorphic constant x is cast to the type of y:
             x_cast = converter_._generate_unique_name(f"{x.name}_cast")  # pylint: disable=protected-access
+            opset_version = converter_.default_opset.version
+            if opset_version is not None and opset_version < 15:
+                # CastLike was introduced in opset 15: use Cast when the type of y is known.
+                if y.dtype is None:
+                    raise ValueError(
+                        f"Cannot cast the constant {x.name!r} to the type of {y.name!r}: CastLike "
+                        f"requires opset 15 (default opset is {opset_version}) and the type of "
+                        f"{y.name!r} is not known. Use an explicit op.Cast or a newer opset."
+                    )
+                return converter_._emit1(  # pylint: disable=protected-access
+                    [x_cast], "Cast", [x], [ir.AttrInt64("to", y.dtype.value)]
+                )
             return converter_._emit1([x_cast], "CastLike", [x, y])  # pylint: disable=protected-access
         return x
 
